@@ -18,6 +18,7 @@ fn lookup(cmd: &str) -> Option<CaseFn> {
         "c01" => cases::rt::c01,
         "c02" => cases::rt::c02,
         "c03" => cases::query::c03,
+        "c03r" => cases::query::c03r,
         "c04" => cases::query::c04,
         "c05" => cases::rtree::c05,
         "c06" => cases::rt::c06,
